@@ -66,7 +66,8 @@ def signature(P, b):
         out = [loc(p[0])]
         for e in p[1:]:
             if isinstance(e, dict):
-                out.append(tuple(sorted((k, (loc(v) if k == "i" else (v.rsplit("::", 1)[-1] if k == "a" else v))) for k, v in e.items())))
+                out.append(tuple(sorted((k, (loc(v) if k == "i" else (v.rsplit("::", 1)[-1] if k == "a" else v))) for k, v in e.items()
+                                        if not (k == "f" and "n" in e))))
             else:
                 out.append(e)
         return tuple(out)
